@@ -1441,8 +1441,8 @@ pub fn spec() -> PropSpec {
     PropSpec {
         id: "C18",
         families: vec![Family { name: "clean", f: fam_clean, weight: 30 }, Family { name: "faults", f: fam_faults, weight: 55 }, Family { name: "big", f: fam_big, weight: 15 }, Family { name: "zero-rtt", f: fam_zero_rtt, weight: 15 }],
-        quick_worlds: 40_000,
-        thorough_worlds: 600_000,
+        quick_worlds: 80_000,
+        thorough_worlds: 1_200_000,
         panic_is_violation: true,
         rule: "each world = one seeded execution of the real quinn crate on asyncsim: 1-3 client endpoints and one server endpoint, every task (quinn's endpoint / connection drivers and the scenario's application tasks) scheduled one poll at a time by the chooser, virtual clock, in-memory UDP with loss / duplication / reordering / not-writable faults; application futures of the cancel-safe operations are dropped after a drawn number of polls and retried; connections end by close() or by dropping every handle; non-trivial = every world; distinct = distinct sequence of scheduled task ids",
         assumptions: vec![
